@@ -168,17 +168,20 @@ pub fn apply_filter(value: &Value, filter: &GrokFilter) -> Result<Value, Interna
         GrokFilter::Scale(scale_factor) => {
             let scale_factor = scale_factor * 1000_f64 / 1000_f64;
             let v = match value {
-                Value::Integer(v) => Ok(Value::Float(
-                    NotNan::new((*v as f64) * scale_factor).expect("NaN"),
-                )),
-                Value::Float(v) => Ok(Value::Float(
-                    NotNan::new(v.into_inner() * scale_factor).expect("NaN"),
-                )),
+                // the product can be NaN (`"NaN"` parses as a float, `inf * 0`): the filter fails
+                Value::Integer(v) => NotNan::new((*v as f64) * scale_factor)
+                    .map(Value::Float)
+                    .map_err(|_| InternalError::FailedToApplyFilter(filter.to_string(), value.to_string())),
+                Value::Float(v) => NotNan::new(v.into_inner() * scale_factor)
+                    .map(Value::Float)
+                    .map_err(|_| InternalError::FailedToApplyFilter(filter.to_string(), value.to_string())),
                 Value::Bytes(v) => {
                     let v = String::from_utf8_lossy(v).parse::<f64>().map_err(|_e| {
                         InternalError::FailedToApplyFilter(filter.to_string(), value.to_string())
                     })?;
-                    Ok(Value::Float(NotNan::new(v * scale_factor).expect("NaN")))
+                    NotNan::new(v * scale_factor)
+                        .map(Value::Float)
+                        .map_err(|_| InternalError::FailedToApplyFilter(filter.to_string(), value.to_string()))
                 }
                 _ => Err(InternalError::FailedToApplyFilter(
                     filter.to_string(),
